@@ -186,6 +186,15 @@ static void run_group(const char *id, int first, int last, const char *fmt, cons
         unsigned m = 0;
         sh->cur = ep;
         for (int pass = 0; pass < 2; pass++) {
+            /* a priming call with the EMPTY format at the same address (an accepted, harmless format), then the real one:
+               a validation result cached per format address must not let the second contents through */
+            {
+                char c0 = fmt[0]; wchar_t w0 = wfmt[0];
+                ((char *)fmt)[0] = 0; ((wchar_t *)wfmt)[0] = 0;
+                memset(S, PAT[pass], RSZ);
+                (void)call_ep(ep, fmt, wfmt);
+                ((char *)fmt)[0] = c0; ((wchar_t *)wfmt)[0] = w0;
+            }
             memset(S, PAT[pass], RSZ);
             hcount = 0; hcode = 0;
             ret[pass] = call_ep(ep, fmt, wfmt);
@@ -214,11 +223,11 @@ static int unhex(const char *h, unsigned char *out, size_t cap) {
 }
 
 int main(void) {
-    static char line[1 << 16];
+    static char line[1 << 17];
     /* the format starts at cell 1; cell 0 holds a '%': a pre-scan that looks at the character in FRONT of the format (a
        look-behind without a lower bound) takes a leading "%n" for the escaped "%%n" and lets it through */
-    static unsigned char fmt0[4097], in[2048];
-    static wchar_t wfmt0[4097];
+    static unsigned char fmt0[12001], in[2048];
+    static wchar_t wfmt0[12001];
     unsigned char *fmt = fmt0 + 1;
     wchar_t *wfmt = wfmt0 + 1;
     fmt0[0] = '%'; wfmt0[0] = L'%';
